@@ -7,7 +7,9 @@ __anext__) event of a clean render (N events); then for every k <= N the same
 template is rendered with a private exception instance raised at the k-th
 event.  Oracle: the render raises that very object; afterwards the same
 template and two other templates of the same environment render to their clean
-outputs."""
+outputs.  Events inside the bodies of templates imported / included without
+context happen only on the first render of an environment: those fault points
+each get a brand-new environment (fresh_phase)."""
 from __future__ import annotations
 
 import asyncio
@@ -23,10 +25,24 @@ RULE = ("case = environment (sync or async, autoescape on/off) with 3 generated 
         "probe iterables incl. loop.length/last, calls, string conversion, __html__, truth tests, "
         "sort/map/sum/groupby/selectattr/join/min/max/unique with attribute arguments, iterator "
         "filters, tests, macros, call blocks, set/filter blocks, include, import, with, recursive "
-        "loops, extends+super+self.block; async: awaited callables, async iterables) + data "
+        "loops, extends+super+self.block, str.format/__format__ conversion; async: awaited "
+        "callables, async iterables; MODULE-BODY fragments: import / from-import / include without "
+        "context (incl. name list + ignore missing) / include of an importing template, of generated "
+        "templates glib.j2 / incg.j2 whose top-level body calls / reads / iterates / str-converts "
+        "probe data bound as environment globals, and import / from-import WITH context of a library "
+        "whose body reads the render variables; I18N (60% of the environments load the i18n "
+        "extension: new-style or old-style gettext x null translations / harness callables / harness "
+        "callables returning lazy message objects with __mod__ + __str__): trans blocks with bound "
+        "and context variables, __html__ / __format__ objects, pluralize (count expression, named "
+        "count, num), message context, trimmed, no variables, direct gettext/ngettext/pgettext/"
+        "npgettext calls with keyword variables (new-style) or % / |format (old-style)) + data "
         "recipe; fault point = (target template, API in {render, generate, stream | render_async, "
-        "generate_async, render-via-asyncio.run}, k) for EVERY k <= N events of the clean run. "
-        "distinct = (template source + recipe hash, API, k) whose fault actually fired")
+        "generate_async, render-via-asyncio.run}, k) for EVERY k <= N events of the clean run in the "
+        "warmed-up environment, PLUS for the first render in a BRAND-NEW environment (own environment "
+        "per fault point): every event inside an imported / included-without-context template body "
+        "and a few others; after each fault all 3 main templates are rendered cleanly in that same "
+        "environment. distinct = (template source + recipe + i18n hash, API, k, fresh?) whose fault "
+        "actually fired")
 TECHNIQUE = "probe-counted exhaustive fault injection with exception-identity and re-render oracle"
 LEVEL_TEXT = ("held on every enumerated fault point of the generated templates (each data event "
               "of each clean run, one API per point in quick, all APIs in thorough)")
@@ -38,36 +54,90 @@ ASSUMPTIONS = [
     "propagate the same object or be reported as false (documented exception)",
     "engine-internal feature probing of data objects (dunder / jinja_* attribute lookups) is not "
     "a data event",
+    "probes reachable without a render context (environment globals g_*, the installed gettext "
+    "callables and the lazy messages they return) are data in the sense of the statement; calls of "
+    "the gettext callables are fault points too",
+    "brand-new environments of one case share a harness-side in-memory BytecodeCache (public API): "
+    "compiled code only, no template or module objects",
+    "clean reference output = render in the warmed-up environment; a first render in a new "
+    "environment that differs from it is counted, not judged (no fault involved)",
 ]
 NSHARDS = {"quick": 16, "thorough": 16}
 BUDGET_S = {"quick": 12, "thorough": 420}
 FLOORS = {
-    "quick": {"evaluations": 4000, "distinct": 3500,
-              "counters": {"faults_fired": 4000, "identity_checks": 3500,
-                           "post_fault_renders": 10000, "cases": 30,
-                           "faults_sync": 1200, "faults_async": 1200}},
+    "quick": {"evaluations": 3000, "distinct": 3000,
+              "counters": {"faults_fired": 3000, "identity_checks": 3000,
+                           "post_fault_renders": 9000, "cases": 30,
+                           "faults_sync": 1000, "faults_async": 1000,
+                           "faults_fresh_env": 500,
+                           "faults_fresh_env_in_module_body_sync": 200,
+                           "faults_fresh_env_in_module_body_async": 200,
+                           "faults_in_i18n_fragment": 300,
+                           "faults_in_i18n_fragment:newstyle:str": 60,
+                           "faults_in_i18n_fragment:oldstyle:str": 40}},
     "thorough": {"evaluations": 170000, "distinct": 170000,
                  "counters": {"faults_fired": 170000, "identity_checks": 170000,
                               "post_fault_renders": 500000, "cases": 500,
-                              "faults_sync": 80000, "faults_async": 80000}},
+                              "faults_sync": 80000, "faults_async": 80000,
+                              "faults_fresh_env": 25000,
+                              "faults_fresh_env_in_module_body_sync": 8000,
+                              "faults_fresh_env_in_module_body_async": 8000,
+                              "faults_in_i18n_fragment": 12000,
+                              "faults_in_i18n_fragment:newstyle:str": 2500,
+                              "faults_in_i18n_fragment:oldstyle:str": 1500}},
 }
 
 SYNC_APIS = ["render", "generate", "stream"]
 ASYNC_APIS = ["render_async", "generate_async", "render"]
 
 
+def _mem_cache():
+    """Harness-side in-memory bytecode cache (public BytecodeCache API): the many
+    brand-new environments of one case share the compiled code of its templates,
+    nothing else (no template objects, no modules)."""
+    from jinja2 import BytecodeCache
+
+    class Mem(BytecodeCache):
+        def __init__(self):
+            self.d = {}
+
+        def load_bytecode(self, bucket):
+            b = self.d.get(bucket.key)
+            if b is not None:
+                bucket.bytecode_from_string(b)
+
+        def dump_bytecode(self, bucket):
+            self.d[bucket.key] = bucket.bytecode_to_string()
+
+    return Mem()
+
+
 class CaseEnv:
-    def __init__(self, case, recipe, loop):
+    def __init__(self, case, recipe, loop, bcc=None):
         from jinja2 import DictLoader, Environment
 
         self.case = case
         self.recipe = recipe
         self.loop = loop
         self.is_async = case["is_async"]
+        i18n = case.get("i18n")
         self.env = Environment(loader=DictLoader(dict(case["tpls"])),
-                               enable_async=self.is_async, autoescape=bool(case["autoescape"]))
+                               enable_async=self.is_async, autoescape=bool(case["autoescape"]),
+                               extensions=["jinja2.ext.i18n"] if i18n else [],
+                               bytecode_cache=bcc)
         self.ev = None
+        # probes that are not render variables (environment globals, gettext callables)
+        # report to the run in progress through this proxy
+        self.proxy = P.EvProxy()
         self.env.globals["mark"] = self._mark
+        self.env.globals.update(P.build_globals(recipe, self.proxy, self.is_async))
+        if i18n:
+            if i18n["callables"] == "null":
+                self.env.install_null_translations(newstyle=bool(i18n["newstyle"]))
+            else:
+                g, ng, pg, npg = P.make_gettext(self.proxy, i18n["callables"] == "lazy")
+                self.env.install_gettext_callables(g, ng, newstyle=bool(i18n["newstyle"]),
+                                                   pgettext=pg, npgettext=npg)
 
     def _mark(self, label):
         if self.ev is not None:
@@ -79,6 +149,7 @@ class CaseEnv:
         ev = self.ev = P.Events(fault_at)
         data = P.build(self.recipe, ev, self.is_async)
         t = self.env.get_template(name)
+        self.proxy.cur = ev
         try:
             if api == "render":
                 out = t.render(**data)
@@ -101,12 +172,15 @@ class CaseEnv:
             return ("exc", e, ev)
         finally:
             self.ev = None
+            self.proxy.cur = None
 
 
-def check_fault(ctx, ce, clean, target, api, k):
-    """One fault point.  clean: {name: output}."""
+def check_fault(ctx, ce, clean, target, api, k, fresh=False):
+    """One fault point.  clean: {name: output}.  fresh: ce is a brand-new
+    environment (nothing rendered / imported in it yet)."""
     case = ce.case
-    rcase = {"case": case, "recipe": ce.recipe, "target": target, "api": api, "k": k}
+    rcase = {"case": case, "recipe": ce.recipe, "target": target, "api": api, "k": k,
+             "fresh": bool(fresh)}
     kind, val, ev = ce.run(target, api, fault_at=k)
     ctx.ev()
     if not ev.fired:
@@ -115,12 +189,23 @@ def check_fault(ctx, ce, clean, target, api, k):
         return
     ctx.count("faults_fired")
     ctx.count("faults_async" if ce.is_async else "faults_sync")
+    if fresh:
+        ctx.count("faults_fresh_env")
+        if str(ev.fired_label).startswith("mod:"):
+            ctx.count("faults_fresh_env_in_module_body")
+            ctx.count("faults_fresh_env_in_module_body_" + ("async" if ce.is_async else "sync"))
+    if case.get("i18n"):
+        ctx.count("faults_i18n_env")
+        if str(ev.fired_label).startswith(("trans-", "gettext-")):
+            ctx.count("faults_in_i18n_fragment")
+            ctx.count("faults_in_i18n_fragment:%s:%s"
+                      % ("newstyle" if case["i18n"]["newstyle"] else "oldstyle", ev.fired_kind))
     ctx.count("fault_event:" + ev.fired_kind)
     ctx.count("fault_api:" + api)
     ctx.count("fault_in:" + str(ev.fired_label))
     where = "%s@%s" % (ev.fired_kind, ev.fired_label)
-    ctx.dist((core.h8([case["tpls"][target], ce.recipe, case["autoescape"], ce.is_async]),
-              api, k))
+    ctx.dist((core.h8([case["tpls"][target], ce.recipe, case["autoescape"], ce.is_async,
+                       case.get("i18n")]), api, k, bool(fresh)))
     ctx.count("identity_checks")
     if kind == "exc" and val is ev.boom:
         pass
@@ -168,6 +253,16 @@ def run_case(ctx, case, recipe, quick, loop):
         return
     apis = ASYNC_APIS if ce.is_async else SYNC_APIS
     clean, nev = {}, {}
+    # warm-up: the bodies of templates imported / included without context run once
+    # per environment (cached module); their events belong to fresh_phase below
+    for name in case["mains"]:
+        kind, val, ev = ce.run(name, apis[0])
+        if kind != "ok":
+            ctx.count("case_rejected_clean_raises:" + type(val).__name__)
+            if len(ctx.samples) < 6:
+                ctx.sample({"rejected_clean_raises": repr(val)[:300], "i18n": case.get("i18n"),
+                            "template": case["tpls"][name]})
+            return
     for name in case["mains"]:
         outs = []
         for api in apis:
@@ -205,6 +300,39 @@ def run_case(ctx, case, recipe, quick, loop):
         if ctx.elapsed() > ctx.budget_s * 1.5:
             ctx.count("case_cut_by_time")
             break
+    fresh_phase(ctx, case, recipe, loop, clean, quick)
+
+
+def fresh_phase(ctx, case, recipe, loop, clean, quick):
+    """Fault points of the FIRST render in a brand-new environment: the bodies of
+    templates imported / included without context run only then (the module is
+    cached afterwards), so every event inside such a body ('mod:' labels) is a
+    fault point, each in its own new environment, followed by clean renders of all
+    main templates in that environment."""
+    is_async = case["is_async"]
+    apis = ASYNC_APIS if is_async else SYNC_APIS
+    bcc = _mem_cache()
+    for ti, target in enumerate(case["mains"]):
+        ce = CaseEnv(case, recipe, loop, bcc)
+        kind, val, ev = ce.run(target, apis[0])
+        if kind != "ok" or val != clean[target]:
+            # not this property's business (no fault involved); visible in the evidence
+            ctx.count("fresh_first_render_differs_from_warm(not deciding)")
+            continue
+        modpts = [i for i, (_, lab, _) in enumerate(ev.trace, 1) if str(lab).startswith("mod:")]
+        others = [i for i in range(1, ev.n + 1) if i not in set(modpts)]
+        nother = 2 if quick else 8
+        step = max(1, len(others) // nother)
+        pts = modpts[:60 if quick else 400] + others[ti % step::step][:nother]
+        if modpts:
+            ctx.count("fresh_targets_with_module_body_events")
+        for j, k in enumerate(sorted(pts)):
+            for api in ([apis[(j + ti) % 2]] if quick else apis):
+                check_fault(ctx, CaseEnv(case, recipe, loop, bcc), clean, target, api, k,
+                            fresh=True)
+        if ctx.elapsed() > ctx.budget_s * 1.5:
+            ctx.count("case_cut_by_time")
+            break
 
 
 def run(ctx):
@@ -228,14 +356,19 @@ def replay(ctx, obj):
     loop = asyncio.new_event_loop()
     try:
         case = obj["case"]
-        ce = CaseEnv(case, obj["recipe"], loop)
-        post_api = "render_async" if ce.is_async else "render"
+        ref = CaseEnv(case, obj["recipe"], loop)
+        post_api = "render_async" if ref.is_async else "render"
         clean = {}
         for name in case["mains"]:
-            kind, val, _ = ce.run(name, post_api)
+            kind, val, _ = ref.run(name, post_api)
             if kind != "ok":
                 return
             clean[name] = val
-        check_fault(ctx, ce, clean, obj["target"], obj["api"], obj["k"])
+        if obj.get("fresh"):
+            ce = CaseEnv(case, obj["recipe"], loop)
+        else:
+            ce = ref
+        check_fault(ctx, ce, clean, obj["target"], obj["api"], obj["k"],
+                    fresh=bool(obj.get("fresh")))
     finally:
         loop.close()
